@@ -204,8 +204,8 @@ def generate(tier, rng):
       [-1e15, 1e15, 0.0, 5e14], [0.1, 0.2, 0.3, 0.7], [1.0, 1.0000001], [5.0, -5.0], [1e18, -1e18, 3.0],
   ]
   levels = [2, 3, 4, 5, 6, 7, 9, 10, 16, 17, 33, 100]
-  for v in special:
-    for L in ([3, 100] if tier == 'quick' else levels):
+  for vi, v in enumerate(special):
+    for L in ([(3, 100, 2)[vi % 3]] if tier == 'quick' else levels):
       yield _ucase('usq', v, L, G)
     yield _ucase('bsq', v, 2, G)
     if _tern_ok(v):
@@ -217,7 +217,7 @@ def generate(tier, rng):
   fams += [[5.0, 5.0, 5.0, 5.0, 5.5], [7.0] * 9 + [-3.0], [-100.0] * 5 + [-100.5], [100.0] * 4, [-0.25] * 3, [1e4] * 2 + [1e4 + 1]]
   for i, v in enumerate(fams):
     v = [float(np.float32(x)) for x in v]
-    for L in ((3, 17) if tier == 'quick' else (2, 3, 5, 17, 100)):
+    for L in (((3, 17)[i % 2],) if tier == 'quick' else (2, 3, 5, 17, 100)):
       yield _ucase('usq', v, L, G)
     yield _ucase('bsq', v, 2, G)
     if _tern_ok(v):
@@ -262,6 +262,8 @@ def generate(tier, rng):
         continue
       if tier == 'quick' and agg == 'usq_arith':
         continue
+      if tier == 'quick' and agg not in {'forms': ('usq', 'rusq'), 'owned': ('rusq', 'tern'), 'order': ('rusq', 'drive')}.get(sub, (agg,)):
+        continue
       yield {'kind': 'X', 'sub': sub, 'agg': agg, 'L': rng.choice([2, 3, 5]), 'seed': rng.randrange(1, 2 ** 30),
              'key': rng.choice([0, rng.randrange(2 ** 31)]), 'big': tier == 'thorough'}
   # aggregators
@@ -277,7 +279,7 @@ def generate(tier, rng):
     for agg in AGGS:
       rounds = [1, 2, 3, rng.choice([1, 2, 3])]
       rng.shuffle(rounds)
-      combos += [(agg, nc, nr) for nc, nr in zip((1, 2, 3, 4), rounds)]
+      combos += [(agg, nc, nr) for nc, nr in zip((1, 2, 3, 4), rounds)][:(2 if agg == 'usq_arith' else 4)]
   for agg in ('rusq', 'drive', 'usq', 'tern'):
     for tree, share in (((7, False), (8, True)) if tier == 'quick' else ((7, False), (8, False), (3, True), (8, True))) \
         if agg in ('rusq', 'drive') else ((7, True),):
@@ -333,7 +335,9 @@ def run_U(case):
   # gets the draw g / G for every coordinate; the ORIGINAL shape is used for the real-key draw below (judged against the exact levels)
   n = len(case['v'])
   # (uniform / binary: the row is padded with copies of v[0] to a standard width, which changes neither min nor max and
-  #  lets XLA reuse one compiled kernel per width; TernGrad depends on mean and std, so it keeps its own width)
+  #  lets XLA reuse one compiled kernel per width)
+  # TernGrad keeps its own width: its float32 mean / std depend on the number of summands (repeating or padding the data
+  # changes the rounding of jnp.std on offset data)
   N = n if case['fn'] == 'tern' else 16 if n <= 16 else 104 if n <= 104 else n
   row = np.array(list(case['v']) + [case['v'][0]] * (N - n), np.float32)
   vt = np.tile(row.reshape(1, N), (G, 1))
